@@ -44,6 +44,15 @@ def kani_env():
 
 def build(timeout=3600):
     """Compile /repo's working tree with every harness. Returns dict(ok, seconds, log, harnesses)."""
+    slot = None
+    if os.environ.get("VERIF_BUILD_SLOTS"):
+        # development only: bound the number of concurrent kani-compiler processes (7.5 GB RSS each)
+        import fcntl
+        d, n = os.environ["VERIF_BUILD_SLOTS"].rsplit(":", 1)
+        os.makedirs(d, exist_ok=True)
+        k = int(os.environ.get("VERIF_BUILD_SLOT", "0")) % int(n)
+        slot = open(os.path.join(d, "slot%d" % k), "w")
+        fcntl.flock(slot, fcntl.LOCK_EX)
     with Lock("kani-build-" + sha256_text(TARGET)[:8]):
         t0 = time.time()
         rc, out, err, secs = run(["cargo", "kani"] + BUILD_ARGS, cwd=CRATE, env=kani_env(), timeout=timeout)
@@ -151,7 +160,10 @@ def run_harness(h, workdir, timeout=600, trace=False):
         cmd += ["--unwind", str(uw)]
     cmd += ["--trace"] if trace else ["--slice-formula"]
     cmd += [out, "--json-ui"]
-    rc, so, se, secs = run(cmd, timeout=timeout)
+    launch = cmd
+    if os.environ.get("VERIF_CBMC_MEM_GB"):
+        launch = ["bash", "-c", "ulimit -v %d; exec \"$@\"" % (int(os.environ["VERIF_CBMC_MEM_GB"]) << 20), "cbmc-limited"] + cmd
+    rc, so, se, secs = run(launch, timeout=timeout)
     res = dict(harness=name, seconds=time.time() - t0, cbmc_seconds=secs, cbmc_cmd=" ".join(cmd), checks=[],
                unwind=uw, stubs=(h.get("attributes") or {}).get("stubs") or [])
     try:
